@@ -331,6 +331,8 @@ impl Database {
                     Some(Arc::clone(&self.shared.memory_budget)),
                 )?;
 
+                self.restore_next_row_id()?;
+
                 *self.shared.mode.write() = super::DatabaseMode::ReadWrite;
 
                 eprintln!("[turdb] WAL recovery complete! Recovered {} frames.", frames);
